@@ -12,7 +12,7 @@ def commit(prefix):
     assert len(m)==1,(prefix,m); return m[0].split()[0]
 F=[]
 def add(sub, case, what, cprefix):
-    F.append({"property":"C03","status":"fixed","bucket":"fixed:"+cprefix[5:45].strip().replace(' ','-'),"subcheck":sub,"case":case,"what":what,"commit":commit(cprefix)})
+    F.append({"property":"C03","status":"fixed","bucket":"fixed:"+cprefix[5:45].strip().replace(' ','-').replace('/','_'),"subcheck":sub,"case":case,"what":what,"commit":commit(cprefix)})
 add("eval", ev([["d","00","direct"],["op",0x73]],0), "OP_IFDUP duplicated the non-empty false value 0x00", "fix: OP_IFDUP")
 add("eval", ev([["n",1,"opn"],["op",0x92]],MINIMALDATA), "OP_0NOTEQUAL rejected every operand under MINIMALDATA", "fix: OP_0NOTEQUAL")
 add("eval", ev([["n",0,"opn"],["n",0,"opn"],["d","0000000000","direct"],["op",0xa5]],0), "OP_WITHIN accepted a 5-byte operand (likewise PICK/ROLL/CHECKMULTISIG counts)", "fix: script numbers consumed")
@@ -26,5 +26,8 @@ add("eval", ev([["d","aa"*256,"p2"],["op",0x75],["n",1,"opn"]],MINIMALDATA), "a 
 add("eval", ev([["sig",3,1,"ok",0],["key",3,"p05"],["op",0xac]],0), "a 33-byte key with prefix 05 verified a signature (also x >= p and wrong-parity hybrid keys)", "fix: SEC public keys")
 add("eval", ev([["n",0,"opn"],["key",0,"short"],["op",0xac],["op",0x91]],STRICTENC), "an empty signature skipped the STRICTENC public-key encoding check", "fix: an empty or unparseable signature")
 add("eval", ev([["sig",0,1,"seqlen-1",0],["key",0,"c"],["op",0xac]],0), "a signature with a wrong DER sequence length was refused without DERSIG (consensus parses leniently)", "fix: without BIP66 strictness")
+CSV=1024; WPK=1<<15
+add("eval", dict(ev([["d","0100000000","p1"],["op",0xb2]],CSV), version=2, sequence=5), "CHECKSEQUENCEVERIFY rewrote its non-minimal operand 0100000000 as 01 (likewise CHECKLOCKTIMEVERIFY)", "fix: CHECKLOCKTIMEVERIFY / CHECKSEQUENCEVERIFY leave")
+add("spend", sp("p2wsh",[["n",0,"opn"],["key",0,"empty"],["op",0xac],["op",0x91]],[],P2SH|WITNESS|WPK), "an empty public key under WITNESS_PUBKEYTYPE escaped is_solution_ok as IndexError", "fix: an empty public key under WITNESS_PUBKEYTYPE")
 json.dump({"findings":F}, open('/verif/known_findings/C03.json','w'), indent=1)
 print(len(F))
